@@ -783,6 +783,32 @@ theorem v2v_reachable_integral (src tgt : Geom) (Ai Bi : Aff) (hA : src.aff.inv 
       roundV ((Bi.comp src.aff).apply (idxPt (reachSrc p first st k))) = idxPt k :=
   Match.v2v_reachable_integral hA hB hr
 
+/-! ## tolerance semantics of `match_geometry`, test by test (translated bodies TC09a / TC09b) -/
+
+/-- **Sub-voxel shift**: a target origin `e` voxels off a source voxel along an axis (`|e| < 1/2`) is planned exactly like the
+origin on the voxel when `|e| ≤ tol` and refused (RuntimeError) when `|e| > tol` — the boundary is `tol` in units of the
+source's voxel spacing, inclusive.  (`planAxis` hands `offset = v · (other.position - position)` and the spacing to this body:
+`plan_forwards_source_args`; the final `geometry_equal` then judges the absolute shift entry by entry.) -/
+theorem match_shift_tolerance (s : Int) (e sp : Rat) (hsp : sp ≠ 0) (h1 : -(1 / 2) < e) (h2 : e < 1 / 2) (step no ni : Int)
+    (tol : Rat) (htol : 0 ≤ tol) (rc rp : Bool) :
+    (rabs e ≤ tol → mgCropPad (((s : Rat) + e) * sp) sp step no ni tol rc rp = mgCropPad ((s : Rat) * sp) sp step no ni tol rc rp) ∧
+    (tol < rabs e → mgCropPad (((s : Rat) + e) * sp) sp step no ni tol rc rp = .error .runtime) :=
+  mgCropPad_shift s e sp hsp h1 h2 step no ni tol htol rc rp
+
+/-- **Non-integer scale**: (anti-)parallel axes with spacing ratio `m + e` (`m ≥ 1`, `|e| < 1/2`): stride `±m` when `|e| ≤ tol`,
+RuntimeError when `|e| > tol`. -/
+theorem match_scale_tolerance (σ : Int) (hσ : σ = 1 ∨ σ = -1) (m : Int) (hm : 1 ≤ m) (e t tol : Rat) (ht : t ≠ 0)
+    (htol : 0 < tol) (h1 : -(1 / 2) < e) (h2 : e < 1 / 2) :
+    (rabs e ≤ tol → mgAlign (σ : Rat) (((m : Rat) + e) * t) t tol = .ok (true, σ * m)) ∧
+    (tol < rabs e → mgAlign (σ : Rat) (((m : Rat) + e) * t) t tol = .error .runtime) :=
+  mgAlign_scale σ hσ m hm e t tol ht htol h1 h2
+
+/-- **Rotation**: a source axis is passed over for a target axis exactly when the dot product `d` of the unit vectors has
+neither `|d - 1| < tol` nor `|d + 1| < tol` (strict; for an angle θ between them: `1 - |cos θ| ≥ tol`). -/
+theorem match_direction_tolerance (d s t tol : Rat) :
+    mgAlign d s t tol = .ok (false, 0) ↔ ¬ (rabs (d - 1) < tol ∨ rabs (d + 1) < tol) :=
+  mgAlign_direction d s t tol
+
 /-! ## matching a volume to its own geometry -/
 
 /-- **`match_geometry(self)` is the identity**: for every well-formed volume, tolerance `0 < tol ≤ 1` and padding mode,
@@ -798,6 +824,12 @@ theorem match_own_geometry {α : Type} (src : Vol α) (tol : Rat) (mode : PadMod
   exact ((match_sound src src.geom tol mode hlaw r hwf.det_ne_zero hr1).2 k hk').1 k hk href.symm
 
 /-! ## non-vacuity (round 2) -/
+
+/-- a quarter-voxel shift at tol = 1/3 is planned like no shift, at tol = 1/5 it is refused -/
+example : (match mgCropPad ((2 + 1 / 4) * (3 / 2)) (3 / 2) 1 4 8 (1 / 3) false false with
+      | .ok r => r.1 == 2 && r.2.2.1 == 6 && r.2.2.2.1 == 1 | .error _ => false) = true ∧
+    (match mgCropPad ((2 + 1 / 4) * (3 / 2)) (3 / 2) 1 4 8 (1 / 5) false false with | .error e => e == .runtime | .ok _ => false) = true := by
+  decide +kernel
 
 example : AffineAbsWithin (unitGeom 0 none) (unitGeom (1 / 2048) none) (1 / 1024) := by
   refine ⟨fun a => ?_, ?_⟩
